@@ -530,10 +530,44 @@ def check_wrap_case(c, acc=None):
   return None, rb
 
 
+def eager_purity(L, r, thin, bits_i, acts_i):
+  """EAGER evaluation of the un-vmapped wrappers agrees with jit — also when the same retained input state is stepped
+  twice (a state object is a value: stepping it again must give the same result, as it does under jit).  In-place
+  updates of the input's info dict that do not change any result (AutoResetWrapper zeroing `steps` of a done state)
+  are not judged.  Returns a failure dict or None."""
+  m = mods()
+  jax, jp, T = m['jax'], m['jp'], m['training']
+  env = T.AutoResetWrapper(T.EpisodeWrapper(m['Scripted'](thin, r), L, r))
+  jstep = jax.jit(env.step)
+  snap = lambda st: [(k, np.array(v)) for k, v in named_leaves(st)]
+  st = env.reset(jp.asarray(np.asarray(bits_i, dtype=np.uint32)))
+  rp = dict(leg='eager-wrap', L=L, r=r, thin=thin, bits=[int(b) for b in bits_i], acts=[float(a) for a in acts_i])
+  for t, a in enumerate(acts_i):
+    a = jp.asarray([float(a)])
+    ref = snap(jstep(st, a))
+    nst = env.step(st, a)                     # eager, first evaluation
+    again = env.step(st, a)                   # eager, the same retained input once more
+    for which, got in (('first', nst), ('second', again)):
+      for (k, x), (_, y) in zip(snap(got), ref):
+        if x.shape != y.shape or not np.allclose(x, y, rtol=1e-12, atol=1e-12):
+          return dict(key='C07:jit-eager:wrap', what=f'eager wrapped step {t} (L={L}, action_repeat={r}), {which} evaluation on the '
+                      f'same input state, differs from the jitted step at {k}: {x.tolist()} vs {y.tolist()}',
+                      step=t, leaf=k, evaluation=which, **rp)
+    st = nst
+  return None
+
+
 def leg_wrappers(ctx, acc, rng):
   m = mods()
   jax, jp, T = m['jax'], m['jp'], m['training']
   n_cases = ctx.budget(5, 40)
+  # eager evaluation of the wrappers, action_repeat 1 and 2: purity of step and agreement with jit
+  for r_e in (1, 2):
+    L_e = int(rng.integers(3, 7))
+    f = eager_purity(L_e, r_e, 1, W.rand_bits(rng, 1, 1, -1)[0], W.rand_actions(rng, 6, 1, 0.0)[:, 0])
+    acc.evals += 1
+    if f:
+      acc.fail(**f)
   hist = dict(B={}, episodes=0, by_time_limit=0, by_termination=0, steps=0)
   c15_lines, c15_real, c15_info = [], [], []
   for ci in range(n_cases):
